@@ -639,14 +639,13 @@ static std::string run_line(const std::string &line)
     }
 }
 
-int main()
+// one line, robustly: a crash while the INPUT is being built (recipe evaluation: constructors
+// outside the anchored code) is reported as SETUP-CRASH and skipped by the checks
+static std::string run_single(const std::string &line)
 {
-    std::string line;
-    while (std::getline(std::cin, line)) {
-        // a crash while the INPUT is being built (recipe evaluation: constructors outside the
-        // anchored code) is reported as such and skipped by the checks
-        std::vector<std::string> f = split_sep(line, "\t");
-        bool ok = verif::survives([&]() {
+    std::vector<std::string> f = split_sep(line, "\t");
+    bool ok = verif::survives(
+        [&]() {
             try {
                 Ctx c;
                 if (f.size() >= 3 && (f[0] == "Q" || f[0] == "R"))
@@ -655,12 +654,47 @@ int main()
                     setup(c, f[2], f[3], "-");
             } catch (...) {
             }
-        }, 60);
-        if (!ok) {
-            std::cout << "SETUP-CRASH\n";
-            continue;
+        },
+        60);
+    if (!ok)
+        return "SETUP-CRASH";
+    return verif::run_forked([&]() { return run_line(line); }, 120);
+}
+
+int main()
+{
+    // lines are processed in batches inside one forked child (forking is the dominant cost);
+    // a batch in which anything crashes or hangs is redone line by line
+    const size_t BATCH = 24;
+    std::vector<std::string> lines;
+    std::string line;
+    auto flush = [&]() {
+        if (lines.empty())
+            return;
+        std::string out = verif::run_forked(
+            [&]() {
+                std::string o;
+                for (const auto &l : lines)
+                    o += run_line(l) + "\n";
+                return o + "#END";
+            },
+            600);
+        std::vector<std::string> res = split_sep(out, "\n");
+        if (res.size() == lines.size() + 1 && res.back() == "#END") {
+            for (size_t i = 0; i < lines.size(); i++)
+                std::cout << res[i] << "\n";
+        } else {
+            for (const auto &l : lines)
+                std::cout << run_single(l) << "\n";
         }
-        std::cout << verif::run_forked([&]() { return run_line(line); }, 120) << "\n";
+        std::cout.flush();
+        lines.clear();
+    };
+    while (std::getline(std::cin, line)) {
+        lines.push_back(line);
+        if (lines.size() >= BATCH)
+            flush();
     }
+    flush();
     return 0;
 }
